@@ -1,7 +1,7 @@
 (* C14 — property theorems only: statement, `exact <lemma>`, Print Assumptions. *)
 From GL Require Import Common.Bytes Pm.Class Pm.PmTypes Pm.RefMatch Pm.GoParse Pm.GoCompile Pm.GoVM
      Pm.Find Pm.Gsub Pm.Flat Pm.ClassFacts Pm.FindFacts Pm.GsubFacts Pm.ParseFacts Pm.CompileFacts
-     Pm.VMFacts.
+     Pm.VMFacts Pm.RefFacts Pm.SetFacts Pm.PmRefine Pm.PrintFacts.
 
 (* single character classes (%a %c %d %l %p %s %u %w %x %z, their complements, and every other
    escaped byte) agree with C's <ctype.h> in the "C" locale as used by lstrlib's match_class,
@@ -11,6 +11,22 @@ Theorem class_agree :
     go_single_matches cl ch = ref_match_class ch cl.
 Proof. exact class_agree_lemma. Qed.
 Print Assumptions class_agree.
+
+(* set_agree: a [set] written from plain characters, ranges x-y, %c classes and an optional
+   complement is read back by lstrlib (classEnd finds its closing bracket, matchbracketclass
+   decides membership) exactly as the class tree pm.go builds for it.  Stated hypothesis set_ok:
+   bytes 1..255; raw ']' and '%' only through %-escapes; a plain character is not followed by an
+   item starting with '-'; a range does not end in '%' (finding C14-10) or ']'; an uncomplemented
+   set does not start with '^'. *)
+Theorem set_agree :
+  forall neg l, set_ok neg l ->
+  forall pat p, occurs pat p (set_text neg l) ->
+    classEnd pat p = Some (p + len (set_text neg l)) /\
+    forall src s, is_bytes src = true -> 0 <= s ->
+      singlematch pat src s p (p + len (set_text neg l)) =
+      cmatch src (CSet neg (map sitem_cls l)) s.
+Proof. intros neg l H. destruct (set_class_repr neg l H) as (_ & _ & _ & R). exact R. Qed.
+Print Assumptions set_agree.
 
 (* strGsubDoReplace: for increasing non-overlapping extents the offset bookkeeping produces the
    left-to-right concatenation s[0..b1) ++ r1 ++ s[e1..b2) ++ ... ++ s[ek..len s) *)
@@ -104,3 +120,63 @@ Theorem vm_refines_flat :
     end.
 Proof. exact goVM_flat. Qed.
 Print Assumptions vm_refines_flat.
+
+(* reference side: lstrlib's matcher run on the TEXT that an item list prints to computes the
+   same flat semantics (captures, back-references, %b, greedy/lazy expansion, anchors) *)
+Theorem ref_refines_flat :
+  forall (pat src : bytes) (tail : bool), is_bytes src = true ->
+  forall items text, prints (tail_text tail) items text ->
+  forall fuel p s cs stk,
+    suffix_is pat p text -> (length items + 1 <= fuel)%nat ->
+    stk_repr cs stk -> bounded src cs s -> 0 <= s <= len src ->
+    len cs + ncap_items items <= MAXCAPTURES ->
+    do_match pat src fuel s p cs = conv (fm src tail items s cs stk).
+Proof. exact ref_flat. Qed.
+Print Assumptions ref_refines_flat.
+
+(* vm_refines_ref (the main refinement): for a parsed pattern tree p whose text is `text`
+   (prints: classes written as `.`, plain characters, %x classes or sets meeting set_agree's
+   hypothesis; quantifiers * + - ?; captures, position captures, back-references, %b; anchors),
+   every subject of bytes and every start position: one run of gopher-lua's VM on the compiled
+   program and lstrlib's matcher on the text give the same outcome, the same end position and the
+   same capture extents (slot layout 2k+2/2k+3, exact slice length).  Out-of-fuel of the model is
+   excluded by hypothesis (vm_fuel_enough is not proved); the parser is related to `prints` by
+   the correspondence runs and by goparse_roundtrip_small, not by a general theorem. *)
+Theorem vm_refines_ref :
+  forall (p : seqpat) (text src : bytes) (sp0 : Z) (fuel : nat),
+    prints (tail_text (must_tail p)) (flatten_seq (patterns p)) text ->
+    is_bytes src = true ->
+    ncaps_seq (patterns p) <= MAXCAPTURES ->
+    0 <= sp0 <= len src ->
+    1 + Z.of_nat fuel <= maxRecursionLevel ->
+    goVM src (goCompile p) fuel 0 sp0 <> VFuel ->
+    let pat := head_text (must_head p) ++ text in
+    vm_ref_rel src sp0 (ncaps_seq (patterns p))
+               (goVM src (goCompile p) fuel 0 sp0)
+               (ref_match pat src sp0 (len (head_text (must_head p)))).
+Proof. exact vm_refines_ref_lemma. Qed.
+Print Assumptions vm_refines_ref.
+
+(* the same with an executable side condition: seq_okb p (computable) says that the parsed
+   tree p is printable and print_seq p is its text *)
+Theorem vm_refines_ref_checked :
+  forall (p : seqpat) (pb src : bytes) (sp0 : Z) (fuel : nat),
+    seq_okb p = true -> print_seq p = Some pb ->
+    is_bytes src = true -> 0 <= sp0 <= len src ->
+    1 + Z.of_nat fuel <= maxRecursionLevel ->
+    goVM src (goCompile p) fuel 0 sp0 <> VFuel ->
+    vm_ref_rel src sp0 (ncaps_seq (patterns p))
+               (goVM src (goCompile p) fuel 0 sp0)
+               (ref_match pb src sp0 (len (head_text (must_head p)))).
+Proof. exact PrintFacts.vm_refines_ref_checked. Qed.
+Print Assumptions vm_refines_ref_checked.
+
+(* parser round trip, BOUNDED: for each of the 8492 trees of rt_family (all sequences of at most
+   two items over 33 item shapes and of three items over 10 shapes, with and without ^ and $;
+   8076 of them printable) parsePattern of the printed text gives the tree back.  Finite sweep
+   by vm_compute; the general statement is not proved. *)
+Theorem goparse_roundtrip_small :
+  forall p, In p rt_family -> seq_okb p = true ->
+  exists pb, print_seq p = Some pb /\ goParse pb = ParseOk p.
+Proof. exact goparse_roundtrip_small_lemma. Qed.
+Print Assumptions goparse_roundtrip_small.
